@@ -112,6 +112,14 @@ Theorem C02_create_dc_packet : forall v cc, v < 8192 -> cc < 16 ->
 Proof. exact create_dc_spec. Qed.
 Print Assumptions C02_create_dc_packet.
 
+(* function-style SetPayload(pkt, pay) of create.go: writes over the payload area only, never the header part *)
+Theorem C02_set_payload_fn : forall l d, Iso.wf_lpkt l ->
+  Create.SetPayload_fn (Iso.ser_pkt l) d =
+  (hdr_part l ++ firstn (length (Iso.lpayload l)) d ++ skipn (length d) (Iso.lpayload l),
+   N.min (len d) (len (Iso.lpayload l))).
+Proof. exact set_payload_fn_spec. Qed.
+Print Assumptions C02_set_payload_fn.
+
 (* non-vacuity: a packet with PCR, splice countdown, 2 bytes of private data and 3 stuffing bytes
    is well-formed; SetPayload with 5 bytes on it behaves as stated *)
 Definition ex_l : Iso.lpkt :=
